@@ -30,14 +30,14 @@ def _single_cases(draw, tier):
     big = tier == "thorough"
     d = draw(gen.spline(max_p=7 if big else 4, max_extra=8 if big else 4, dims=None,
                         unclamped="maybe", affine_range="maybe", normalize="maybe",
-                        vol_max_p=3, vol_max_extra=3 if big else 2))
+                        vol_max_p=3, vol_max_extra=3 if big else 2, micro=True))
     if draw(st.integers(0, 9)) == 0 and d["kind"] == "curve":
         # n-D curve (4 coordinates)
         d["P"] = [p + [p[0] * 0.5] * (4 - len(p)) for p in d["P"]]
         d["dim"] = 4
     pdim = len(d["degree"])
     prm = draw(st.lists(gen.params(pdim), min_size=1, max_size=4))
-    mode = draw(st.sampled_from(["w", "w", "pw"]))
+    mode = draw(st.sampled_from(["w", "w", "pw", "pww"]))
     return {"defn": d, "params": prm, "mode": mode}
 
 
@@ -100,6 +100,10 @@ def _grid_cases(draw, tier):
     use_single_delta = draw(st.booleans())
     if use_single_delta:
         ns = [ns[0]] * pdim
+    elif draw(st.integers(0, 9)) == 0:
+        # one direction sampled densely (sizes where 1/(1/n) is not exactly n in floating point), the others coarsely
+        ns = [2] * pdim
+        ns[draw(st.integers(0, pdim - 1))] = draw(st.sampled_from([93, 99, 105, 117, 123, 49, 98, 103, 107]))
     sub = None
     if d["kind"] != "volume" and draw(st.booleans()):
         sub = [draw(gen.params(pdim)), draw(gen.params(pdim))]
@@ -206,7 +210,7 @@ def check_grid_reuse(case, ctx):
     import itertools
     d = case["defn"]
     obj = build.make(d)
-    ns = case["n"]
+    ns = [min(x, 9) for x in case["n"]]          # the dense-sampling class belongs to the 'grid' sub-check
     pdim = len(ns)
     obj.delta = 1.0 / ns[0]
     first = [list(p) for p in obj.evalpts]
